@@ -2,7 +2,6 @@ package main
 
 import (
 	"fmt"
-	"time"
 
 	"verif/harness/g11lib"
 )
@@ -10,83 +9,28 @@ import (
 func main() {
 	f := g11lib.NewFix(nil)
 	defer f.Close()
-	for _, q := range []string{
-		"CREATE USER 'a'@'%' IDENTIFIED BY 'pwA'",
-		"CREATE USER 'a'@'127.%' IDENTIFIED BY 'pwB'",
-		"CREATE USER 'b'@'127.0.0.1' IDENTIFIED BY 'pwC'",
-		"CREATE USER 'c'@'localhost'",
-		"CREATE USER 'd'@'10.%' IDENTIFIED BY 'pwD'",
-		"CREATE USER 'e'@'%' IDENTIFIED WITH caching_sha2_password BY 'pwE'",
-		"CREATE USER 'g'@'%' IDENTIFIED WITH caching_sha2_password",
-		"GRANT SELECT ON d.t1 TO 'a'@'%'",
-		"GRANT SELECT ON d.t2 TO 'a'@'127.%'",
-	} {
-		f.Root.MustExec(q)
-	}
-	t0 := time.Now()
 	srv, err := f.E.StartServer()
 	if err != nil {
 		panic(err)
 	}
 	defer srv.Close()
-	fmt.Println("server start", time.Since(t0))
 	try := func(u, p string) {
-		t := time.Now()
-		db, err := srv.Open(u, p, "")
-		if err != nil {
-			fmt.Println(u, p, "open err", err)
-			return
-		}
+		db, _ := srv.Open(u, p, "")
 		defer db.Close()
 		err = db.Ping()
-		if err != nil {
-			fmt.Printf("%-4s %-6q -> REJECT %v (%v)\n", u, p, err, time.Since(t))
-			return
-		}
-		var cu, us string
-		e2 := db.QueryRow("SELECT CURRENT_USER(), USER()").Scan(&cu, &us)
-		var n int
-		e3 := db.QueryRow("SELECT COUNT(*) FROM d.t1").Scan(&n)
-		e4 := db.QueryRow("SELECT COUNT(*) FROM d.t2").Scan(&n)
-		fmt.Printf("%-4s %-6q -> OK current_user=%s user=%s (%v) t1:%v t2:%v (%v)\n", u, p, cu, us, e2, e3, e4, time.Since(t))
+		fmt.Printf("%-4s %-10q -> %v\n", u, p, err)
 	}
-	for _, x := range [][2]string{{"a", "pwA"}, {"a", "pwB"}, {"a", ""}, {"a", "pwa"}, {"b", "pwC"}, {"b", "x"}, {"c", ""}, {"c", "x"}, {"d", "pwD"}, {"e", "pwE"}, {"e", "bad"}, {"e", ""}, {"g", ""}, {"g", "x"}, {"zz", ""}, {"zz", "x"}, {"A", "pwA"}, {"root", ""}} {
-		try(x[0], x[1])
+	for _, q := range []string{
+		"CREATE USER 'cy'@'127.0.0._' IDENTIFIED BY 'longer-password-123'",
+		"CREATE USER 'cy'@'%' IDENTIFIED BY 'Secret1'",
+		"GRANT SELECT ON d.* TO 'cy'@'%'",
+	} {
+		f.Root.MustExec(q)
 	}
-	right := func(pw string) func([]byte) []byte { return func(s []byte) []byte { return g11lib.NativeScramble(pw, s) } }
-	cut := func(pw string, n int) func([]byte) []byte {
-		return func(s []byte) []byte {
-			r := g11lib.NativeScramble(pw, s)
-			if n <= len(r) {
-				return r[:n]
-			}
-			return append(r, make([]byte, n-len(r))...)
-		}
-	}
-	raw := func(label string, a g11lib.RawAttempt) {
-		o := g11lib.RawLogin(srv.Addr, a)
-		fmt.Printf("raw %-40s -> %+v\n", label, o)
-	}
-	raw("b right", g11lib.RawAttempt{User: "b", Plugin: "mysql_native_password", Response: right("pwC")})
-	raw("b wrong", g11lib.RawAttempt{User: "b", Plugin: "mysql_native_password", Response: right("nope")})
-	for _, n := range []int{0, 1, 10, 19, 21, 40} {
-		raw(fmt.Sprintf("b cut/ext %d", n), g11lib.RawAttempt{User: "b", Plugin: "mysql_native_password", Response: cut("pwC", n)})
-	}
-	raw("b 255 lenenc", g11lib.RawAttempt{User: "b", Plugin: "mysql_native_password", Response: cut("pwC", 255), Lenenc: true})
-	raw("b 70000 lenenc", g11lib.RawAttempt{User: "b", Plugin: "mysql_native_password", Response: cut("pwC", 70000), Lenenc: true})
-	raw("b lie len 20 of 5", g11lib.RawAttempt{User: "b", Plugin: "mysql_native_password", Response: cut("pwC", 5), LieAboutLength: 20})
-	raw("b lie len 200 of 20", g11lib.RawAttempt{User: "b", Plugin: "mysql_native_password", Response: right("pwC"), LieAboutLength: 200})
-	raw("b plugin bogus", g11lib.RawAttempt{User: "b", Plugin: "bogus_plugin", Response: right("pwC")})
-	raw("b plugin empty", g11lib.RawAttempt{User: "b", Plugin: "", Response: right("pwC")})
-	raw("b plugin clear", g11lib.RawAttempt{User: "b", Plugin: "mysql_clear_password", Response: func([]byte) []byte { return []byte("pwC\x00") }})
-	raw("b plugin sha2, switch short", g11lib.RawAttempt{User: "b", Plugin: "caching_sha2_password", Response: right("pwC"), SwitchResponse: cut("pwC", 7)})
-	raw("b plugin sha2, switch right", g11lib.RawAttempt{User: "b", Plugin: "caching_sha2_password", Response: right("pwC")})
-	raw("c empty", g11lib.RawAttempt{User: "c", Plugin: "mysql_native_password", Response: func([]byte) []byte { return nil }})
-	raw("c junk3", g11lib.RawAttempt{User: "c", Plugin: "mysql_native_password", Response: func([]byte) []byte { return []byte{1, 2, 3} }})
-	raw("zz right-ish", g11lib.RawAttempt{User: "zz", Plugin: "mysql_native_password", Response: right("x")})
-	raw("zz short", g11lib.RawAttempt{User: "zz", Plugin: "mysql_native_password", Response: cut("x", 3)})
-	try("b", "pwC")
-	raw("g sha2 empty", g11lib.RawAttempt{User: "g", Plugin: "caching_sha2_password", Response: func([]byte) []byte { return nil }})
-	raw("g native empty", g11lib.RawAttempt{User: "g", Plugin: "mysql_native_password", Response: func([]byte) []byte { return nil }})
-	raw("g sha2 nul", g11lib.RawAttempt{User: "g", Plugin: "caching_sha2_password", Response: func([]byte) []byte { return []byte{0} }})
+	try("cy", "Secret1")
+	f.Root.MustExec("DROP USER 'cy'@'127.0.0._'")
+	r := f.Root.Exec("SELECT user, host, authentication_string FROM mysql.user")
+	fmt.Println(r.Rows, r.Err)
+	try("cy", "Secret1")
+	try("cy", "longer-password-123")
 }
